@@ -230,6 +230,9 @@ def m_C06(tier):
                 for purge in (False, True):
                     cfgs.append(C(mod, alg, ms, purge, 'default', 'dict', 'seeded_archive', nargs=3, spellings=0, hits_only=True,
                                   depth=4 if tier == 'quick' else 5, states=600 if tier == 'quick' else 6000))
+                    # (one call of the table is new to the archive: after a bulk load it is the only entry with a recency)
+                    cfgs.append(C(mod, alg, ms, purge, 'default', 'dict', 'seeded_archive_partial', nargs=3, spellings=0, hits_only=True,
+                                  depth=5 if tier == 'quick' else 6, states=800 if tier == 'quick' else 8000))
     cfgs += [c for c in longuse_configs(tier, deep=True) if c['longuse'] == 'cycles']
     cfgs += scale_configs(tier)
     cfgs += rebuilt_configs(tier, 'C06')
